@@ -13,7 +13,8 @@
 //	statement sequence      nested `let` / monadic bind inside one `do` block
 //	if (branch terminates)  `if c then T else <rest>`
 //	if (falls through)      join on the tuple of variables assigned in the branches
-//	if (mixed)              <rest> becomes a definition f_k<n>(all variables in scope)
+//	if (mixed)              <rest> becomes a definition f_k<n>(all variables in scope); inside a loop body it is copied
+//	                        into both branches (see the semver additions below)
 //	for / for cond / 3-clause   f_loop<n> : fixed variables → fuel → modified variables → Option R,
 //	                        what follows the loop becomes f_after<n>
 //	for range over a slice  structural recursion over the list (no fuel)
@@ -53,6 +54,25 @@
 //	uint8, (string, int)    uint8 is byte (UInt8); several results are a Lean tuple, `a, b := f(x)` destructures it
 //	for init; cond; post {} an empty body, and an assignment to the loop variable inside the body (`j += w`), need no rule of
 //	                        their own: the loop variable is one of the modified variables of f_loop<n>
+//
+// Additions made for golang.org/x/mod/semver (semver.go of the x/mod version /repo's go.mod requires, read from
+// the module cache; preset "semver"):
+//
+//	+x                      unary plus on an int or byte is its operand (`return +1` is `pure 1`)
+//	if (mixed) in a loop    an `if` inside a loop body whose branch may return but may also fall through
+//	                        (`if c == '.' { if start == i { return }; start = i + 1 }; i++`): what follows ends in the
+//	                        loop's recursive call, which only f_loop<n> itself can make (structural recursion on its
+//	                        fuel), so it cannot become a definition f_k<n>; it is COPIED into both branches instead
+//	                        (`if c then <then>; <rest> else <else>; <rest>`), the meaning of the Go code unchanged.
+//	                        Outside loops a mixed `if` still produces f_k<n>
+//	s < t on strings        `decide (s < t)` on Bytes is Lean's lexicographic order of lists over the order of UInt8
+//	                        (List.lt): Go compares strings byte-wise, a proper prefix is smaller.  (Already what the
+//	                        rule for `<` emitted; stated here because semver is the first translated code that uses it.)
+//	struct results          `func parse(v string) (p parsed, ok bool)`: the named result `p` starts as the zero struct
+//	                        of the configured structure (Config.Structs, checked field by field against the `type … struct`
+//	                        declaration of the file by StructDefs), `p.major, v, ok = parseInt(v[1:])` destructures the
+//	                        callee's tuple and updates the field with `{ p with major := … }`, an assignment to a parameter
+//	                        (`v`) shadows it; no rule of its own
 package go2lean
 
 import (
@@ -588,6 +608,10 @@ func (t *tr) exprN(e ast.Expr) val {
 			return val{pre: x.pre, s: "!" + paren(x.s), t: TBool}
 		case token.SUB:
 			return val{pre: x.pre, s: "-" + paren(x.s), t: x.t}
+		case token.ADD: // unary plus (`return +1`): the operand itself
+			if x.t != nil && (x.t.K == KInt || x.t.K == KByte) {
+				return x
+			}
 		}
 	case *ast.BinaryExpr:
 		return t.binary(v)
@@ -1655,6 +1679,13 @@ func (t *tr) ifStmt(v *ast.IfStmt, rest func() string) string {
 			}
 			body = fmt.Sprintf("let %s ← (show Option (%s) from if %s then do\n%s\n  else do\n%s)\n%s", tp, strings.Join(tys, " × "), c.s, indent(th, 4), indent(el, 4), popRest())
 		}
+	case len(t.loops) > 0:
+		// mixed, inside a loop body: what follows ends in the loop's recursive call, which only the loop
+		// definition itself can make (structural recursion on its fuel), so it cannot move into a definition
+		// of its own — it is copied into both branches instead
+		th := branch(thenL, popRest)
+		el := branch(elseL, popRest)
+		body = fmt.Sprintf("if %s then do\n%s\nelse do\n%s", c.s, indent(th, 2), indent(el, 2))
 	default:
 		// mixed: what follows becomes a definition of its own
 		var call string
